@@ -214,11 +214,10 @@ func (s *SubscriptionManager[C, T]) Subscribe(clientID C, topic T) bool {
 		if has {
 			subscribedTopics.Set(topic, count+1)
 		} else {
-			// add a new topic
-			subscribedTopics.Set(topic, 1)
-
-			// check if the client has reached the max number of subscriptions
-			if s.maxTopicSubscriptionsPerClient != 0 && subscribedTopics.Size() >= s.maxTopicSubscriptionsPerClient {
+			// check if the client reaches the max number of subscriptions with the new topic.
+			// the check is done before the new topic is added to the client, because the topic is not
+			// counted in the global map yet and therefore must not be part of the cleanup.
+			if s.maxTopicSubscriptionsPerClient != 0 && subscribedTopics.Size()+1 >= s.maxTopicSubscriptionsPerClient {
 				// cleanup the client
 				_, removedTopics, unsubscribedTopics = s.cleanupClientWithoutLocking(clientID)
 				clientDropped = true
@@ -227,6 +226,9 @@ func (s *SubscriptionManager[C, T]) Subscribe(clientID C, topic T) bool {
 				// do not modify the global map
 				return
 			}
+
+			// add a new topic
+			subscribedTopics.Set(topic, 1)
 		}
 
 		// global topics map
